@@ -306,6 +306,67 @@ def run(ctx, F, cg):
                 ctx.ok("R12g", inst, "all %d non-tag fields are computed" % (len(fnames) - 1))
         ctx.floor("R12g", "record constructions in the exporter", n_rec, 3)
     # ---- shared ------------------------------------------------------------------------------------------
+    # ---- R12i: a declaration field copied into the spec is not discarded before the index is created -------------------
+    ctx.rule("R12i", "in the hierarchy rebuild of the importer, once a field of the HierarchySpec has been assigned from the record (spec.reverse = decl.reverse) every later re-definition of the spec on the way to HierarchyIndexManager::create is derived from the spec itself (a builder call that takes it by value): rebuilding it from HierarchySpec::new drops the field, and the hierarchy comes back declared in the opposite orientation")
+    imp_ = [r for p_, r in F.fns.items() if p_ == SNAP + "import_tenant_inner"]
+    if len(imp_) != 1:
+        ctx.anchor_failure("R12i", "import_tenant_inner")
+    else:
+        r = imp_[0]
+        b = Body(F.mir(r["path"]), r)
+        ctx.saw_fn(r["path"])
+        creates = [c for c in b.calls() if c.path.endswith("HierarchyIndexManager::create")]
+        specs = [l for l in range(len(b.mir["locals"])) if "hierarchy" in b.local_ty(l) and b.local_ty(l).endswith("HierarchySpec")]
+        nwrites = 0
+        bad = []
+        for l in specs:
+            writes = [(i, line, pl) for i, j, pl, rv, line, exp in b.stmts() if pl[0] == l and [x for x in pl[1] if x.startswith("f:")]]
+            if not writes:
+                continue
+            nwrites += len(writes)
+            def derived(op, depth=0):
+                """the operand is the whole spec (moved / copied / passed by value through builder calls) — a clone of one
+                of its fields is not"""
+                if op[0] == "k" or depth > 8 or [x for x in op[1][1] if x != "*"]:
+                    return False
+                x = op[1][0]
+                if x == l:
+                    return True
+                if not b.local_ty(x).endswith("HierarchySpec"):
+                    return False
+                dd = b.defs().get(x, [])
+                if len(dd) != 1:
+                    return False
+                if dd[0][0] == "call":
+                    return any(derived(a_, depth + 1) for a_ in dd[0][2].args)
+                rv_ = dd[0][4]
+                if rv_[0] == "use":
+                    return derived(rv_[1], depth + 1)
+                return False
+            wblocks = {w[0] for w in writes}
+            for d in b.defs().get(l, []):
+                if d[0] == "stmt":
+                    if d[3][1]:
+                        continue        # a field write, not a re-definition
+                    src_ok = d[4][0] == "use" and derived(d[4][1])
+                    dbb, dline, dname = d[1], None, "an assignment"
+                else:
+                    c = d[2]
+                    src_ok = any(derived(a) for a in c.args)
+                    dbb, dline, dname = c.bb, c.line, c.path.rsplit("::", 2)[-2] + "::" + c.path.rsplit("::", 1)[-1]
+                if src_ok:
+                    continue
+                after = [w for w in writes if dbb in b.reach_after(w[0], avoid=wblocks - {w[0]})]
+                # the re-definition reaches create without the field being assigned again
+                if after and dbb not in wblocks and any(cc.bb in b.reach_after(dbb, avoid=wblocks) for cc in creates):
+                    bad.append((dline or after[0][1], dname, sorted({x[2:].rsplit(".", 1)[-1] for w in after for x in w[2][1] if x.startswith("f:")})))
+        if not creates:
+            ctx.anchor_failure("R12i", "HierarchyIndexManager::create call in import_tenant_inner")
+        for k, (line, dname, fields) in enumerate(bad):
+            ctx.violation("R12i", "import_tenant_inner|spec-rebuilt|%s" % ",".join(fields), where(r, line), "the spec is re-defined by %s from a value that does not derive from the spec whose field(s) %s were just copied from the record; the copy is lost before the index is created" % (dname, fields))
+        if creates and not bad:
+            ctx.ok("R12i", "import_tenant_inner|spec-fields-survive", "%d field assignment(s) from the record; every later re-definition of the spec takes the spec itself" % nwrites)
+        ctx.floor("R12i", "spec field assignments from the hierarchy record", nwrites, 1)
     class Fwd(_Collect):
         def __init__(self, outer, rules):
             _Collect.__init__(self)
